@@ -39,6 +39,8 @@ func main() {
 		os.Exit(cmdReplay(os.Args[2:]))
 	case "race":
 		os.Exit(sim.RaceMain(os.Args[2:]))
+	case "determinism":
+		os.Exit(cmdDeterminism(os.Args[2:]))
 	case "selftest":
 		os.Exit(sim.SelfTest(os.Args[2:]))
 	case "sites":
@@ -539,6 +541,90 @@ func raceFrames(s string) (string, string) {
 		frames = append(frames, "?")
 	}
 	return frames[0], frames[1]
+}
+
+// cmdDeterminism is `./check selftest determinism`: for every property, several
+// VERIF_SEED values, the first runs executed in many fresh processes at
+// GOMAXPROCS 1/4/16 and with different run partitions; the per-run event-log
+// hashes (every observation, step count, order and interleaving hash) must be
+// identical across all processes.
+func cmdDeterminism(args []string) int {
+	fs := flag.NewFlagSet("determinism", flag.ExitOnError)
+	tmp := fs.String("tmp", "", "")
+	propsFlag := fs.String("props", "C14,C15,C16,C17,C18,C20", "")
+	seeds := fs.Int("seeds", 8, "")
+	runs := fs.Int("runs", 6, "")
+	procs := fs.Int("procs", 30, "")
+	fs.Parse(args)
+	self, _ := os.Executable()
+	bad := 0
+	for _, prop := range strings.Split(*propsFlag, ",") {
+		compared := 0
+		for s := 1; s <= *seeds; s++ {
+			type res struct {
+				h   map[int]uint64
+				err error
+				log string
+			}
+			out := make([]res, *procs)
+			var wg sync.WaitGroup
+			sem := make(chan struct{}, runtime.NumCPU())
+			for j := 0; j < *procs; j++ {
+				j := j
+				wg.Add(1)
+				sem <- struct{}{}
+				go func() {
+					defer wg.Done()
+					defer func() { <-sem }()
+					f := filepath.Join(*tmp, fmt.Sprintf("det-%s-%d-%d.json", prop, s, j))
+					from, stride := 0, 1
+					if j%3 == 1 {
+						from, stride = 0, 2
+					} else if j%3 == 2 {
+						from, stride = 1, 2
+					}
+					cmd := exec.Command(self, "worker", "-prop", prop, "-tier", "quick", "-seed", fmt.Sprint(s*1000003), "-from", fmt.Sprint(from),
+						"-stride", fmt.Sprint(stride), "-runs", fmt.Sprint(*runs), "-out", f)
+					cmd.Env = append(os.Environ(), "GOMAXPROCS="+[]string{"1", "4", "16"}[j%3])
+					b, err := cmd.CombinedOutput()
+					if err != nil {
+						out[j] = res{nil, err, string(b)}
+						return
+					}
+					acc, err := sim.LoadAcc(f)
+					os.Remove(f)
+					if err != nil {
+						out[j] = res{nil, err, ""}
+						return
+					}
+					out[j] = res{acc.Hashes, nil, ""}
+				}()
+			}
+			wg.Wait()
+			ref := map[int]uint64{}
+			for j, r := range out {
+				if r.err != nil {
+					fmt.Printf("determinism: %s seed %d process %d failed: %v\n%s\n", prop, s, j, r.err, tail(r.log, 1500))
+					return 2
+				}
+				for run, h := range r.h {
+					compared++
+					if h0, ok := ref[run]; !ok {
+						ref[run] = h
+					} else if h0 != h {
+						bad++
+						fmt.Printf("determinism: %s seed %d run %d: process %d has event-log hash %x, another has %x\n", prop, s, run, j, h, h0)
+					}
+				}
+			}
+		}
+		fmt.Printf("determinism: %s: %d (seed, run, process) event-log hashes compared over %d seeds x %d runs x %d processes (GOMAXPROCS 1/4/16, three run partitions): %d mismatches\n",
+			prop, compared, *seeds, *runs, *procs, bad)
+	}
+	if bad > 0 {
+		return 2
+	}
+	return 0
 }
 
 func sanitize(s string) string {
